@@ -229,6 +229,15 @@ def compare_ball(chk, a, b, name, R, s, t, desc):
             return
     size = s * (1 + float(np.max(np.abs(np.asarray(a.vertices))))) + float(np.linalg.norm(t))
     if not close(float(vb.radius), float(va.radius) * s, scale=size) or not close(np.asarray(vb.center, float), s * R @ np.asarray(va.center, float) + t, scale=size):
+        if name.startswith("minimal_bounding") and chk.is_known("miniball-randomised-solver"):
+            # recorded known finding: one of the two balls fails the exact optimality certificate (randomised third-party solver)
+            from .C13 import miniball_certificate
+            oka = miniball_certificate(np.asarray(a.vertices, float), np.asarray(va.center, float), float(va.radius))[0]
+            okb = miniball_certificate(np.asarray(b.vertices, float), np.asarray(vb.center, float), float(vb.radius))[0]
+            if not (oka and okb):
+                chk.known_finding("miniball-randomised-solver", "minimal bounding sphere/circle: the randomised third-party miniball solver occasionally returns a ball that is not minimal (or not enclosing) for an input on which a re-evaluation is right")
+                chk.count("known:miniball")
+                return
         chk.violation("not-covariant:" + name, dict(desc, before=[float(va.radius), np.asarray(va.center).tolist()], after=[float(vb.radius), np.asarray(vb.center).tolist()]))
 
 
